@@ -23,10 +23,18 @@
                           every stored packet in store order (PUBLISH with dup set, PUBREL as such)
                           before Restore and before any Dequeue call of the connection.
    c08_no_second_new      over the whole session lifetime a fresh (dup = false) QoS>0 PUBLISH with
-                          id i is sent at most once per allocation of i by NextID. *)
+                          id i is sent at most once per allocation of i by NextID.
+   c08_popped_is_saved    (ConnSpec3.v) a QoS>0 message the dequeuer took from the backend queue is
+                          handed to SavePacket(Outgoing) — as a fresh PUBLISH of exactly that message —
+                          before the connection can end: at EClosed no goroutine holds a dequeued,
+                          not yet saved message (in the model cleanup cannot begin while the dequeuer
+                          is between Dequeue's return and SavePacket).
+   c08_pubrel_after_store (ConnSpec3.v) the goroutine that received PUBREC id sends PUBREL id only after
+                          its successful Save(Outgoing, PUBREL id): a connection lost while writing the
+                          PUBREL is resumed with PUBREL, not with the PUBLISH again. *)
 From Coq Require Import List NArith Bool.
-From GM Require Import Base.Lts Codec.Packet Session.Store Broker.Conn Broker.ConnSpec
-  Broker.ConnProofsCTraces Broker.ConnProofsC2 Broker.ConnProofsC3.
+From GM Require Import Base.Lts Codec.Packet Session.Store Broker.Conn Broker.ConnSpec Broker.ConnSpec3
+  Broker.ConnProofsCTraces Broker.ConnProofsC2 Broker.ConnProofsC3 Broker.ConnProofsC6.
 Import ListNotations.
 Open Scope N_scope.
 
@@ -45,6 +53,14 @@ Print Assumptions C08_resend.
 Theorem C08_no_second_new : forall es s, bc_run es = Some s -> c08_no_second_new es = true.
 Proof. exact c08_no_second_new_holds. Qed.
 Print Assumptions C08_no_second_new.
+
+Theorem C08_popped_is_saved : forall es s, bc_run es = Some s -> c08_popped_is_saved es = true.
+Proof. exact c08_popped_is_saved_holds. Qed.
+Print Assumptions C08_popped_is_saved.
+
+Theorem C08_pubrel_after_store : forall es s, bc_run es = Some s -> c08_pubrel_after_store es = true.
+Proof. exact c08_pubrel_after_store_holds. Qed.
+Print Assumptions C08_pubrel_after_store.
 
 (* non-vacuity: accepted traces (ConnProofsCTraces.v) exercising the clauses *)
 
@@ -67,6 +83,20 @@ Example C08_nonvacuous_resume :
   In (ETx 5 (Connack true 0) false true) tr_resume /\
   In (ETx 5 (Publish true tc_m1 1) true true) tr_resume /\ In (ETx 5 (Pubrel 2) true true) tr_resume.
 Proof. vm_compute. repeat split; auto 60. Qed.
+
+(* the second-round clauses on the same traces (a connection that ends after QoS>0 deliveries,
+   a PUBREC/PUBREL exchange, a resume that re-sends a PUBREL) *)
+Example C08_nonvacuous_round2 :
+  c08_popped_is_saved tr_qos1 = true /\ c08_popped_is_saved tr_resume = true /\
+  c08_pubrel_after_store tr_qos2 = true /\ c08_pubrel_after_store tr_resume = true /\
+  In EClosed tr_qos1 /\ In (ESave 2 Outgoing (Pubrel 1) true) tr_qos2.
+Proof. vm_compute. repeat split; auto 60. Qed.
+
+Example C08_round2_clauses_reject :
+  c08_popped_is_saved [ENewConn; EDeqRet 3 (QMsg tc_m1 false); EClosed] = false /\
+  c08_popped_is_saved [ENewConn; EDeqRet 3 (QMsg tc_m1 false); ESave 3 Outgoing (Publish false tc_m1b 1) true] = false /\
+  c08_pubrel_after_store [ERx 2 (Pubrec 1); ETx 2 (Pubrel 1) true true] = false.
+Proof. vm_compute. repeat split. Qed.
 
 (* the clauses do reject: a fresh PUBLISH without a preceding save, an unjustified delete,
    a dequeue before the resend is complete, a second fresh send of the same id *)
